@@ -32,7 +32,7 @@ fn docs(k: usize, f: impl Fn(&B)) {
 //@ props: C20
 //@ timeout: 900
 //@ harness: c20_delete_by_index, c20_array_insert, c20_keypath
-//@ desc: delete_by_index, array_insert, get_by_keypath and delete_by_keypath with index/position arguments over the ENTIRE i32 range (including i32::MIN and i32::MAX) on [], a scalar and {} (documents on which a fully symbolic index leaves the output size concrete or nearly so): no arithmetic overflow (Kani checks every +,-,*,abs,neg with overflow checks on, i.e. dev-profile semantics), no panic; a result or an error comes back
+//@ desc: delete_by_index (on [], a scalar and {}), array_insert, get_by_keypath and delete_by_keypath (on []) with index/position arguments over the ENTIRE i32 range (including i32::MIN and i32::MAX) (documents on which a fully symbolic index leaves the output size concrete or nearly so): no arithmetic overflow (Kani checks every +,-,*,abs,neg with overflow checks on, i.e. dev-profile semantics), no panic; a result or an error comes back
 //@ fns: delete_by_index, delete_jsonb_by_index, array_insert, array_insert_jsonb, get_by_keypath, delete_by_keypath, delete_jsonb_array_by_keypath
 //@ bounds: documents of <= 1 element (the arithmetic under test happens before any element is touched); index arguments unbounded
 //@ stubs: parse_value, from_slice -> panic | drop_in_place -> no-op
@@ -44,7 +44,7 @@ harness!(c20_delete_by_index, split1(3, |k| docs(1 + k, |d| {
     kani::cover!(i == i32::MIN && r.is_ok(), "i32::MIN handled");
     core::mem::forget(buf);
 })));
-harness!(c20_array_insert, split1(3, |k| docs(1 + k, |d| {
+harness!(c20_array_insert, split1(1, |k| docs(1 + k, |d| {
     let i: i32 = kani::any();
     let new = B::build(&leaf(K_TRUE, 0));
     let mut buf = Vec::new();
@@ -54,7 +54,7 @@ harness!(c20_array_insert, split1(3, |k| docs(1 + k, |d| {
     kani::cover!(i == i32::MAX, "i32::MAX handled");
     core::mem::forget(buf);
 })));
-harness!(c20_keypath, split1(3, |k| docs(1 + k, |d| {
+harness!(c20_keypath, split1(1, |k| docs(1 + k, |d| {
     let (i, j): (i32, i32) = (kani::any(), kani::any());
     let (p, q) = (KeyPath::Index(i), KeyPath::Index(j));
     let path = [&p, &q];
